@@ -21,7 +21,7 @@ import (
 func init() {
 	core.Register(&core.Property{
 		ID:   "C09",
-		Rule: "Date/DateTime/Time literals over every precision x offsets {none,Z,+05:30,-11:00} x days (quick: month ends, leap day, year 0001/9999 edges; thorough: every day of 2019-03-01..2023-02-28) x every calendar keyword (singular, plural) and UCUM-style unit x amounts {0,1,11,12,13,23,24,25,29,30,31,52,53,59,60,61,104,360,364,365,366,729,730,1000,8640,8759,8760,1.5,0.5} x {+,-}; result compared with an independent proleptic-Gregorian model (type, precision, offset, value), and must equal the literal of its own rendering under `=`; monotonicity in the amount; (x+q)-q = x where the model says no clamping/truncation; non-temporal units must error; Quantity +,-,<,= only within one unit. distinct_nontrivial = distinct (type, precision, offset class, unit family, amount, sign) cases whose expected result differs from x",
+		Rule: "Date/DateTime/Time literals over every precision x offsets {none,Z,+05:30,-11:00} x days (quick: month ends, leap day, year 0001/9999 edges; thorough: every day of 2019-03-01..2023-02-28) x every calendar keyword (singular, plural) and UCUM-style unit x amounts {0,1,11,12,13,23,24,25,29,30,31,52,53,59,60,61,104,360,364,365,366,729,730,1000,8640,8759,8760,1.5,0.5} x {+,-}; result compared with an independent proleptic-Gregorian model (type, precision, offset, value), and must equal the literal of its own rendering under `=`; monotonicity in the amount; (x+q)-q = x where the model says no clamping/truncation; non-temporal units must error; Quantity +,-,<,= only within one unit. fractional and huge amounts, Quantity elements with exponent-form amounts, now() arithmetic under OverrideTime in zones with daylight saving; distinct_nontrivial = distinct (type, precision, offset class, unit family, amount, sign) cases whose expected result differs from x",
 		Assumptions: []string{"a sub-day unit added to a Date may be converted or rejected; definite UCUM codes may be rejected or treated like their keyword; results outside 0001..9999 may be error or empty",
 			"fractional amounts: whole part used, except fractional seconds on second/millisecond precision (either reading accepted)"},
 		Run:    runC09,
